@@ -173,9 +173,13 @@ def resplit(rng, read, contig):
             i = 0
             while i < k:
                 run = min(k - i, rng.randint(1, 12))
-                mode = rng.choice(["M", "EX", "M"])
+                mode = rng.choice(["M", "EX", "M", "ARB"])
                 if mode == "M":
                     out.append(["M", run])
+                elif mode == "ARB":
+                    # labels relative to the aligner's own reference, which need not agree with the
+                    # database sequence base by base: any of M / = / X is a legal spelling of the run
+                    out.append([rng.choice(["=", "X", "M"]), run])
                 else:
                     # exact = / X runs
                     j = 0
